@@ -26,35 +26,8 @@ use warg_protocol::registry::PackageName;
 // Reference registry (the stub behind seam R, and the oracle's model)
 // ---------------------------------------------------------------------------
 
-/// Semantics transcribed from warg-client 0.9.0 (`Client::{fetch_packages,download,download_exact}`,
-/// lib.rs:654-782,1228) and warg-protocol 0.9.0 (`package/state.rs` `release`, `find_latest_release`,
-/// `Release::content`): a missing log is `PackageDoesNotExist`; an exact version that is not a
-/// release or is yanked is `PackageVersionDoesNotExist`; "latest" is the highest non-yanked
-/// release that `VersionReq` matches (pre-releases do not match `*`).
-#[derive(Debug, Clone)]
-pub struct Release {
-    pub version: Version,
-    pub yanked: bool,
-}
-
-#[derive(Debug, Clone, Default)]
-pub struct Registry {
-    pub packages: BTreeMap<String, Vec<Release>>,
-}
-
-impl Registry {
-    fn exact(&self, name: &str, v: &Version) -> Result<Option<&Release>, ()> {
-        let rels = self.packages.get(name).ok_or(())?;
-        Ok(rels.iter().find(|r| &r.version == v && !r.yanked))
-    }
-    fn latest(&self, name: &str, req: &VersionReq) -> Result<Option<&Release>, ()> {
-        let rels = self.packages.get(name).ok_or(())?;
-        Ok(rels
-            .iter()
-            .filter(|r| !r.yanked && req.matches(&r.version))
-            .max_by(|a, b| a.version.cmp(&b.version)))
-    }
-}
+pub use crate::regmodel::{Registry, Release};
+use crate::regmodel::{verdict, Verdict};
 
 const NAME_POOL: &[&str] = &["test:a", "test:b", "ns:pkg-c", "x:y", "foo:bar-baz"];
 const ABSENT_POOL: &[&str] = &["test:missing", "gone:pkg", "test:zzz"];
@@ -680,20 +653,12 @@ enum Expect {
 }
 
 fn expect_for(reg: &Registry, k: &Key) -> Expect {
-    if PackageName::new(k.name.clone()).is_err() {
-        return Expect::InvalidName;
-    }
-    match &k.version {
-        Some(v) => match reg.exact(&k.name, v) {
-            Err(()) => Expect::NoPackage,
-            Ok(None) => Expect::NoVersion,
-            Ok(Some(r)) => Expect::Content(content_for(&k.name, &r.version)),
-        },
-        None => match reg.latest(&k.name, &VersionReq::STAR) {
-            Err(()) => Expect::NoPackage,
-            Ok(None) => Expect::NoReleases,
-            Ok(Some(r)) => Expect::Content(content_for(&k.name, &r.version)),
-        },
+    match verdict(reg, &k.name, k.version.as_ref()) {
+        Verdict::Version(v) => Expect::Content(content_for(&k.name, &v)),
+        Verdict::InvalidName => Expect::InvalidName,
+        Verdict::NoPackage => Expect::NoPackage,
+        Verdict::NoVersion => Expect::NoVersion,
+        Verdict::NoReleases => Expect::NoReleases,
     }
 }
 
